@@ -33,3 +33,4 @@
 (declare-fun pathJoin2 (String String) String)
 (declare-fun pathDepth (String) Int)         ; number of elements below the root
 (declare-fun upN (String Int) String)        ; k-fold filepath.Dir
+(declare-fun topLevelStmt (Int) Bool)   ; the statement is one of those global type analysis pre-declared (C11)
